@@ -115,6 +115,13 @@ def orchestrator_oracles(ops, cls_size, cls_align=8):
         #     return, an ordinary panic or a crash
         if "Z" in op.events and op.result is not None and op.result != "abort":
             out.append(("allocfail-outcome", i, "`%s`: the allocator refused a request but the operation ended with `%s`" % (op.line, op.result)))
+        # --- ... and nothing may have been handed back to the allocator before the refused request (the old block
+        #     has to be still there, owned by the vector, when the handler is called)
+        if "Z" in op.events:
+            zi = op.events.index("Z")
+            freed = [e for e in op.events[:zi] if e.startswith("F ")]
+            if freed:
+                out.append(("allocfail-outcome", i, "`%s`: %s before the request that was refused" % (op.line, ", ".join(freed))))
         if not a or op.result is None:
             continue
         # --- storage stability across a borrowing iterator: if the final contents fit the capacity the
@@ -147,6 +154,10 @@ def orchestrator_oracles(ops, cls_size, cls_align=8):
                 out.append(("with-alignment-result", i, "with_alignment(_, %d) must be reported through Err for this element type (align_of = %d), got `%s`" % (A, cls_align, res)))
         if n == "with_alignment" and res == "ok":
             req[r] = int(a[2])
+            # an accepted request owns a block obtained with exactly that alignment (also for capacity 0: the
+            # over-alignment has to be recorded somewhere): a silent "nothing to do" forgets the request; at the natural alignment there is nothing to remember
+            if int(a[2]) > max(cls_align, 8) and not [e for e in op.events if e.startswith("A ") and e.split()[2] == a[2]]:
+                out.append(("reserve-contract", i, "with_alignment(%s, %s) returned Ok without obtaining a block aligned to %s (events %s)" % (a[1], a[2], a[2], op.events)))
         if n in ("split_off",) and len(a) > 1 and a[1] == "0":
             req.pop(r, None)
         if n in ("drain_vec", "into_iter", "drop", "forget", "leak"):
@@ -198,6 +209,8 @@ def orchestrator_oracles(ops, cls_size, cls_align=8):
             # constructors
             if n == "with_capacity" and res == "ok" and after is not None and after[1] != int(a[1]):
                 out.append(("reserve-contract", i, "with_capacity(%s) gave capacity %d" % (a[1], after[1])))
+            if n == "macro_repeat" and res == "ok" and after is not None and after[0] != int(a[2]):
+                out.append(("reserve-contract", i, "mini_vec![_; %s] has len %d" % (a[2], after[0])))
             if n == "macro_repeat" and res == "ok":
                 srcs = set(e.split()[1] for e in op.events if e.startswith("C "))
                 if len(srcs) > 1:
@@ -231,6 +244,10 @@ def orchestrator_oracles(ops, cls_size, cls_align=8):
                 need = l1 + int(a[1])
                 if c1 < need or (c0 < need and c1 != need):
                     out.append(("reserve-contract", i, "reserve_exact(%s): capacity %d, len %d, old capacity %d" % (a[1], c1, l1, c0)))
+            if n in ("resize", "resize_with") and l1 != int(a[1]):
+                out.append(("reserve-contract", i, "%s(%s) returned normally with len %d" % (n, a[1], l1)))
+            if n == "truncate" and l1 != min(l0, int(a[1])):
+                out.append(("reserve-contract", i, "truncate(%s) on len %d gave len %d" % (a[1], l0, l1)))
             if n == "shrink_to_fit" and c1 != l1:
                 out.append(("reserve-contract", i, "shrink_to_fit: capacity %d != len %d" % (c1, l1)))
             if n == "shrink_to":
